@@ -566,4 +566,250 @@ theorem fwdFlags_eq (T : Nat) (cnt i : Nat) (bps : List Nat) (hT : i + cnt = T)
           · intro h; exact Or.inr h
         simp only [decide_eq_decide]; exact this.symm
 
+theorem bwdFlags_rev (cnt : Nat) (rbps : List Nat) (hs : rbps.Pairwise (· > ·)) (hb : ∀ b ∈ rbps, 1 ≤ b ∧ b ≤ cnt) :
+    (bwdFlags cnt rbps).reverse = (List.range cnt).map (fun k => decide (k + 1 ∈ rbps)) := by
+  induction cnt generalizing rbps with
+  | zero => simp [bwdFlags]
+  | succ i ih =>
+    rw [List.range_succ, List.map_append, List.map_singleton]
+    cases rbps with
+    | nil =>
+      simp only [bwdFlags, nextBrkR, Nat.zero_lt_succ, if_true, List.reverse_cons]
+      rw [ih [] List.Pairwise.nil (by simp)]; simp
+    | cons b bs =>
+      have hb0 := hb b (List.mem_cons_self)
+      have hbs : ∀ x ∈ bs, x < b := (List.pairwise_cons.mp hs).1
+      by_cases hlt : b < i + 1
+      · simp only [bwdFlags, nextBrkR, hlt, if_true, List.reverse_cons]
+        rw [ih (b :: bs) hs (fun x hx => ⟨(hb x hx).1, by
+          rcases List.mem_cons.mp hx with rfl | hx
+          · omega
+          · have := hbs x hx; omega⟩)]
+        have hni : i + 1 ∉ b :: bs := by
+          intro h; rcases List.mem_cons.mp h with h | h
+          · omega
+          · have := hbs _ h; omega
+        simp [hni]
+      · have hbi : b = i + 1 := by omega
+        subst hbi
+        simp only [bwdFlags, nextBrkR, Nat.lt_irrefl, if_false, List.tail_cons, List.reverse_cons]
+        rw [ih bs (List.pairwise_cons.mp hs).2 (fun x hx => ⟨(hb x (List.mem_cons_of_mem _ hx)).1, by have := hbs x hx; omega⟩)]
+        simp only [List.mem_cons, true_or, decide_true]
+        congr 1
+        apply List.map_congr_left; intro k hk
+        have hk' : k < i := List.mem_range.mp hk
+        have hne : k ≠ i := by omega
+        simp [hne]
+
+/-! ### backward recursion and posteriors of the rescaled class -/
+
+theorem mulV_vec (n : Nat) (a b : Nat → ℝ) : mulV (vec n a) (vec n b) = vec n (fun j => a j * b j) := by
+  unfold mulV vec; rw [zipWith_vec]
+
+theorem sum_vec (n : Nat) (g : Nat → ℝ) : (vec n g).sum = ∑ i ∈ range n, g i := sum_map_range n g
+
+/-- the (flag, emissions, scale) triples `computeBackward_` reads for the sites ≥ 1 -/
+def itemsOf (rest : List (Site ℝ)) (R : List (List ℝ × ℝ)) : List (Bool × Emis ℝ × ℝ) :=
+  List.zipWith (fun s r => (s.1, s.2, r.2)) rest R
+
+theorem zip_items (rest : List (Site ℝ)) (R : List (List ℝ × ℝ)) :
+    List.zip (rest.map (·.1)) (List.zip (rest.map (·.2)) (R.map (·.2))) = itemsOf rest R := by
+  induction rest generalizing R with
+  | nil => simp [itemsOf]
+  | cons s rest ih =>
+    cases R with
+    | nil => simp [itemsOf]
+    | cons r R => simp only [List.map_cons, List.zip_cons_cons, itemsOf, List.zipWith_cons_cons]; rw [← itemsOf, ih]
+
+theorem backStep_false (p : Params ℝ) (e : Emis ℝ) (c : ℝ) (B : Nat → ℝ) :
+    backStep p false e c (vec p.n B) = vec p.n (fun j => (∑ k ∈ range p.n, e k * p.P j k * B k) / c) := by
+  simp only [backStep, Bool.false_eq_true, if_false]
+  apply vec_congr; intro j _; rw [dot_vec]
+
+/-- Forward–backward identity behind the posteriors: for a normalised forward vector `g`, with all
+following scale factors positive, `Σ_j g_j·back_j = 1`, and every later site's
+`likelihood ⊙ backLikelihood` row is a probability vector. -/
+theorem posterior_rows (p : Params ℝ) (hp : NonNegP p) (rest : List (Site ℝ)) (hs : NonNegS rest)
+    (g : Nat → ℝ) (hg : ∀ j, j < p.n → 0 ≤ g j) (hg1 : ∑ j ∈ range p.n, g j = 1)
+    (hpos : ∀ x ∈ rescLoop p rest (vec p.n g), 0 < x.2) :
+    ∃ (B : Nat → ℝ) (tl : List (List ℝ)),
+      backAll p (itemsOf rest (rescLoop p rest (vec p.n g))) = vec p.n B :: tl
+      ∧ (∀ j, 0 ≤ B j) ∧ ∑ j ∈ range p.n, g j * B j = 1
+      ∧ tl.length = rest.length
+      ∧ ∀ row ∈ List.zipWith mulV ((rescLoop p rest (vec p.n g)).map (·.1)) tl,
+          (∀ x ∈ row, 0 ≤ x) ∧ row.sum = 1 ∧ row.length = p.n := by
+  induction rest generalizing g with
+  | nil =>
+    refine ⟨fun _ => 1, [], by simp [rescLoop, itemsOf, backAll, onesV], fun _ => zero_le_one, by simpa using hg1, rfl, by simp [rescLoop]⟩
+  | cons s rest ih =>
+    obtain ⟨b, e⟩ := s
+    have he : NonNegE e := hs (b, e) (List.mem_cons_self)
+    have hs' : NonNegS rest := fun s hs'' => hs s (List.mem_cons_of_mem _ hs'')
+    -- the step, uniformly in the flag
+    have hstep : ∃ t : Nat → ℝ, (∀ j, 0 ≤ t j) ∧
+        rescLoop p ((b, e) :: rest) (vec p.n g)
+          = (vec p.n (normF t (∑ i ∈ range p.n, t i)), ∑ i ∈ range p.n, t i)
+            :: rescLoop p rest (vec p.n (normF t (∑ i ∈ range p.n, t i)))
+        ∧ (b = false → t = stepF p e g) := by
+      cases b with
+      | true => exact ⟨restartF p e, restartF_nonneg p hp e he, rescLoop_cons_true p e rest _, by simp⟩
+      | false => exact ⟨stepF p e g, stepF_nonneg p hp e he g hg, rescLoop_cons_false p hp e he rest g hg, fun _ => rfl⟩
+    obtain ⟨t, ht, hloop, htb⟩ := hstep
+    set c := ∑ i ∈ range p.n, t i with hc
+    rw [hloop] at hpos ⊢
+    have hcpos : 0 < c := hpos _ (List.mem_cons_self)
+    have hf := normF_nonneg t c p.n (fun j _ => ht j)
+    have hf1 : ∑ j ∈ range p.n, normF t c j = 1 := by
+      have := (normF_spec p.n t (fun j _ => ht j)).2
+      rw [← hc] at this
+      exact mul_left_cancel₀ (ne_of_gt hcpos) (by rw [this, mul_one])
+    obtain ⟨B', tl', hback, hB', hsum', hlen', hrows'⟩ :=
+      ih hs' (normF t c) hf hf1 (fun x hx => hpos x (List.mem_cons_of_mem _ hx))
+    have hitems : itemsOf ((b, e) :: rest) ((vec p.n (normF t c), c) :: rescLoop p rest (vec p.n (normF t c)))
+        = (b, e, c) :: itemsOf rest (rescLoop p rest (vec p.n (normF t c))) := by
+      simp [itemsOf]
+    rw [hitems]
+    simp only [backAll, hback]
+    -- rows of the later sites
+    have hrows : ∀ row ∈ List.zipWith mulV
+        (((vec p.n (normF t c), c) :: rescLoop p rest (vec p.n (normF t c))).map (·.1)) (vec p.n B' :: tl'),
+        (∀ x ∈ row, 0 ≤ x) ∧ row.sum = 1 ∧ row.length = p.n := by
+      intro row hrow
+      simp only [List.map_cons, List.zipWith_cons_cons, List.mem_cons] at hrow
+      rcases hrow with rfl | hrow
+      · rw [mulV_vec]
+        refine ⟨?_, by rw [sum_vec]; exact hsum', by simp⟩
+        intro x hx
+        simp only [vec, List.mem_map, List.mem_range] at hx
+        obtain ⟨j, hj, rfl⟩ := hx
+        exact mul_nonneg (hf j hj) (hB' j)
+      · exact hrows' row hrow
+    cases b with
+    | true =>
+      refine ⟨fun _ => 1, vec p.n B' :: tl', by simp [backStep, onesV], fun _ => zero_le_one, by simpa using hg1,
+        by simp [hlen'], hrows⟩
+    | false =>
+      rw [backStep_false]
+      refine ⟨_, vec p.n B' :: tl', rfl, ?_, ?_, by simp [hlen'], hrows⟩
+      · intro j
+        exact div_nonneg (Finset.sum_nonneg (fun k _ => mul_nonneg (mul_nonneg (he k) (hp.1 j k)) (hB' k))) (le_of_lt hcpos)
+      · -- Σ_j g_j · (Σ_k e_k P_jk B'_k)/c = Σ_k (t_k / c) B'_k = 1
+        have htk : ∀ k, t k = e k * ∑ j ∈ range p.n, p.P j k * g j := by
+          intro k; rw [htb rfl]; rfl
+        rw [← hsum']
+        have : ∀ k, normF t c k = t k / c := by intro k; simp [normF, hcpos]
+        simp only [this, htk]
+        simp only [Finset.mul_sum, Finset.sum_div, Finset.sum_mul]
+        rw [Finset.sum_comm]
+        apply Finset.sum_congr rfl; intro k _
+        apply Finset.sum_congr rfl; intro j _
+        ring
+
+theorem fwdFlags_length (T cnt i : Nat) (bps : List Nat) : (fwdFlags T cnt i bps).length = cnt := by
+  induction cnt generalizing i bps with
+  | zero => simp [fwdFlags]
+  | succ cnt ih => simp only [fwdFlags]; split <;> simp [ih]
+
+theorem mkSites_snd (es : List (Emis ℝ)) (bps : List Nat) : (mkSites es bps).map (·.2) = es := by
+  unfold mkSites; exact List.map_snd_zip (by rw [fwdFlags_length])
+
+theorem mkSites_length (es : List (Emis ℝ)) (bps : List Nat) : (mkSites es bps).length = es.length := by
+  unfold mkSites; simp [fwdFlags_length]
+
+theorem rescLoop_length (p : Params ℝ) (rest : List (Site ℝ)) (prev : List ℝ) : (rescLoop p rest prev).length = rest.length := by
+  induction rest generalizing prev with
+  | nil => simp [rescLoop]
+  | cons s rest ih => obtain ⟨b, e⟩ := s; simp [rescLoop, ih]
+
+/-- for valid break points the backward iterator logic resets at the same sites as the forward one -/
+theorem bwd_flags_eq_fwd (es : List (Emis ℝ)) (bps : List Nat) (hv : ValidBreaks (es.length + 1) bps) :
+    (bwdFlags es.length bps.reverse).reverse = (mkSites es bps).map (·.1) := by
+  rw [bwdFlags_rev es.length bps.reverse (by rw [List.pairwise_reverse]; exact hv.1)
+    (fun b hb => by have := hv.2 b (List.mem_reverse.mp hb); omega)]
+  unfold mkSites
+  rw [List.map_fst_zip (by rw [fwdFlags_length]), fwdFlags_eq (es.length + 1) es.length 1 bps (by omega) hv.1 hv.2]
+  apply List.map_congr_left; intro k _
+  simp only [List.mem_reverse]; rw [Nat.add_comm]
+
+theorem rescPosterior_prob (p : Params ℝ) (hp : NonNegP p) (e0 : Emis ℝ) (he0 : NonNegE e0)
+    (es : List (Emis ℝ)) (hes : ∀ e ∈ es, NonNegE e) (bps : List Nat) (hv : ValidBreaks (es.length + 1) bps)
+    (hpos : ∀ c ∈ (rescForward p e0 (mkSites es bps)).scales, 0 < c) :
+    (rescPosterior p e0 es bps).length = es.length + 1
+    ∧ ∀ row ∈ rescPosterior p e0 es bps, (∀ x ∈ row, 0 ≤ x) ∧ row.sum = 1 ∧ row.length = p.n := by
+  have hsites : NonNegS (mkSites es bps) := by
+    intro s hs
+    have : s.2 ∈ (mkSites es bps).map (·.2) := List.mem_map_of_mem hs
+    rw [mkSites_snd] at this; exact hes _ this
+  set sites := mkSites es bps with hsd
+  have ht := restartF_nonneg p hp e0 he0
+  set c0 := ∑ i ∈ range p.n, restartF p e0 i with hc0
+  set f0 := normF (restartF p e0) c0 with hf0
+  have hfw : rescForward p e0 sites
+      = { lik := vec p.n f0 :: (rescLoop p sites (vec p.n f0)).map (·.1),
+          scales := c0 :: (rescLoop p sites (vec p.n f0)).map (·.2),
+          logLik := (rescForward p e0 sites).logLik } := by
+    unfold rescForward; simp only [rescLoop_cons_true, List.map_cons]; rfl
+  have hscales : (rescForward p e0 sites).scales = c0 :: (rescLoop p sites (vec p.n f0)).map (·.2) := by rw [hfw]
+  have hlik : (rescForward p e0 sites).lik = vec p.n f0 :: (rescLoop p sites (vec p.n f0)).map (·.1) := by rw [hfw]
+  have hc0pos : 0 < c0 := hpos c0 (by rw [hscales]; exact List.mem_cons_self)
+  have hf := normF_nonneg (restartF p e0) c0 p.n (fun j _ => ht j)
+  have hf1 : ∑ j ∈ range p.n, f0 j = 1 := by
+    have := (normF_spec p.n (restartF p e0) (fun j _ => ht j)).2
+    rw [← hc0] at this
+    exact mul_left_cancel₀ (ne_of_gt hc0pos) (by rw [this, mul_one])
+  have hRpos : ∀ x ∈ rescLoop p sites (vec p.n f0), 0 < x.2 := by
+    intro x hx; apply hpos; rw [hscales]; exact List.mem_cons_of_mem _ (List.mem_map_of_mem hx)
+  obtain ⟨B, tl, hback, hB, hsum, hlen, hrows⟩ := posterior_rows p hp sites hsites f0 hf hf1 hRpos
+  have hbw : rescBackward p es (rescForward p e0 sites).scales bps = vec p.n B :: tl := by
+    unfold rescBackward
+    rw [bwd_flags_eq_fwd es bps hv, hscales, List.tail_cons]
+    have hsnd : sites.map (·.2) = es := by rw [hsd]; exact mkSites_snd es bps
+    have hz := zip_items sites (rescLoop p sites (vec p.n f0))
+    rw [hsnd] at hz
+    rw [hz]; exact hback
+  have hpost : rescPosterior p e0 es bps
+      = mulV (vec p.n f0) (vec p.n B) :: List.zipWith mulV ((rescLoop p sites (vec p.n f0)).map (·.1)) tl := by
+    unfold rescPosterior posteriorOf
+    simp only [← hsd, hbw, hlik, List.zipWith_cons_cons]
+  rw [hpost]
+  constructor
+  · simp [hlen, rescLoop_length, hsd, mkSites_length]
+  · intro row hrow
+    rcases List.mem_cons.mp hrow with rfl | hrow
+    · rw [mulV_vec]
+      refine ⟨?_, by rw [sum_vec]; exact hsum, by simp⟩
+      intro x hx
+      simp only [vec, List.mem_map, List.mem_range] at hx
+      obtain ⟨j, hj, rfl⟩ := hx
+      exact mul_nonneg (hf j hj) (hB j)
+    · exact hrows row hrow
+
+theorem zipWith_mul_bounds (a b : List ℝ) (hlen : a.length = b.length) (ha : ∀ x ∈ a, 0 ≤ x) (lo hi : ℝ)
+    (hb : ∀ y ∈ b, lo ≤ y ∧ y ≤ hi) :
+    lo * a.sum ≤ (List.zipWith (fun x y => x * y) a b).sum ∧ (List.zipWith (fun x y => x * y) a b).sum ≤ hi * a.sum := by
+  induction a generalizing b with
+  | nil => simp
+  | cons x xs ih =>
+    cases b with
+    | nil => simp at hlen
+    | cons y ys =>
+      have hx : 0 ≤ x := ha x (List.mem_cons_self)
+      have hy := hb y (List.mem_cons_self)
+      obtain ⟨h1, h2⟩ := ih ys (by simpa using hlen) (fun z hz => ha z (List.mem_cons_of_mem _ hz))
+        (fun z hz => hb z (List.mem_cons_of_mem _ hz))
+      simp only [List.zipWith_cons_cons, List.sum_cons]
+      constructor
+      · nlinarith [mul_le_mul_of_nonneg_left hy.1 hx]
+      · nlinarith [mul_le_mul_of_nonneg_left hy.2 hx]
+
+theorem siteLik_bounds (p : Params ℝ) (row : List ℝ) (hlen : row.length = p.n) (hrow : ∀ x ∈ row, 0 ≤ x) (hsum : row.sum = 1)
+    (e : Emis ℝ) (lo hi : ℝ) (he : ∀ j, j < p.n → lo ≤ e j ∧ e j ≤ hi) :
+    lo ≤ siteLik p row e ∧ siteLik p row e ≤ hi := by
+  unfold siteLik dot
+  rw [sumL_eq_sum]
+  have := zipWith_mul_bounds row (vec p.n e) (by simp [hlen]) hrow lo hi (by
+    intro y hy; simp only [vec, List.mem_map, List.mem_range] at hy; obtain ⟨j, hj, rfl⟩ := hy; exact he j hj)
+  rw [hsum, mul_one, mul_one] at this
+  exact this
+
 end Bpp.Hmm
